@@ -193,11 +193,13 @@ func genTTL(t *rapid.T, label string, now int64) uint32 {
 var smallKeys = []string{"a", "b", "c", "d"}
 
 // keyAlphabets: the usual four short keys, keys that look like the chunked
-// handler's derived entry names, and keys at the 250-byte limit.
+// handler's derived entry names, keys at the 250-byte limit, and keys with
+// percent signs.
 var keyAlphabets = [][]string{
 	smallKeys, smallKeys, smallKeys,
 	{"a", "a-0", "a-meta", "a-1"},
 	{strings.Repeat("K", 249) + "1", strings.Repeat("K", 249) + "2", "k", strings.Repeat("K", 248) + "-0"},
+	{"100%", "%d%s", "load%dump", "a%20b"}, // legal keys that mean something to a formatting routine
 }
 
 func genAlphabet(t *rapid.T) []string {
